@@ -36,7 +36,7 @@ def use_tree(name):
     try:
         for n in os.listdir(BUILD):
             pth = os.path.join(BUILD, n)
-            if n.startswith("coq") and "-alt-" in n and os.path.isdir(pth) and time.time() - os.path.getmtime(pth) > 7200:
+            if n.startswith("coq") and "-alt-" in n and os.path.isdir(pth) and time.time() - max(os.path.getmtime(pth), os.stat(pth).st_ctime) > 7200:   # ctime: rsync -a restores old mtimes while it is still filling a new tree
                 shutil.rmtree(pth, ignore_errors=True)
     except OSError:
         pass
